@@ -58,9 +58,9 @@ def parseMutOp (dflt : Int) (j : Json) : Except String (Option (MutOp Int)) := d
     let acts ← parseActs (← field j "acts")
     pure (some (.populate at_ (treeArgOfJson (← field j "a"))
       (fun p cur av => leafAct dflt acts p cur av)
-      (fun p => match acts.get p with | some .skip => true | _ => false)))
+      (fun p => match acts.get p with | some .skip => Inner.skip | some (.touch c) => Inner.touch c | _ => Inner.recurse)))
   | "iaddf" =>
-    pure (some (.populate at_ (treeArgOfJson (← field j "f")) (fun _ cur av => cur + av) (fun _ => false)))
+    pure (some (.populate at_ (treeArgOfJson (← field j "f")) (fun _ cur av => cur + av) (fun _ => Inner.recurse)))
   | _ => pure none
 
 def handleC01 (j : Json) : Except String Verdict := do
